@@ -95,6 +95,39 @@ func (vc *VC) call(st *State, in ssa.Instruction, c *ssa.CallCommon) Val {
 		if fv.K == KFunc {
 			return vc.callFunction(st, fv.Fn, fv.Fr, args, resT, in.Pos())
 		}
+		if vc.depth == 0 && vc.Con != nil && (len(vc.Con.Of("dyn-modifies")) > 0 || len(vc.Con.Of("dyn-ensures")) > 0) {
+			// the contract states what calls through function values may do (an assumption, reported in the evidence)
+			pre := st.clone()
+			env := vc.funcEnvAt(st, in.Pos())
+			env.old = pre
+			ms := vc.evalModifies(env, vc.Con.Of("dyn-modifies"))
+			vc.havocModSet(st, pre, ms, true)
+			al := vc.fresh("alloc", "Int")
+			st.assume(vc, Ge(al, st.alloc))
+			st.alloc = al
+			var res Val = Val{K: KUnit}
+			if resT != nil {
+				if tup, ok := resT.(*types.Tuple); !ok || tup.Len() > 0 {
+					res = vc.freshVal("r_dyn", resT)
+					st.assume(vc, vc.valid(st, res))
+				}
+			}
+			env2 := vc.funcEnvAt(st, in.Pos())
+			env2.old = pre
+			for _, cl := range vc.Con.Of("dyn-ensures") {
+				st.assume(vc, vc.specBool(env2, cl))
+			}
+			var txt []string
+			for _, cl := range vc.Con.Of("dyn-modifies") {
+				txt = append(txt, "modifies "+cl.Text)
+			}
+			for _, cl := range vc.Con.Of("dyn-ensures") {
+				txt = append(txt, "ensures "+cl.Text)
+			}
+			vc.note("calls through function values in " + vc.Fn.Name() + " are ASSUMED to satisfy: " + strings.Join(txt, "; "))
+			vc.havocked["dynamic call (contract-stated effect)"] = true
+			return res
+		}
 		return vc.havocCall(st, "dynamic call", args, resT, true)
 	}
 	var free []Val
@@ -649,7 +682,16 @@ func (vc *VC) addModItem(env *Env, ms *ModSet, item string) {
 			// region(s) for a slice s: the whole backing array (also beyond len: append in place)
 			rid = r.Reg
 		}
-		ms.Regions = append(ms.Regions, modRegion{rid, "(- 4611686018427387904)", "4611686018427387904", ""})
+		fam := ""
+		inner := strings.TrimSpace(item[7 : len(item)-1])
+		if strings.HasPrefix(inner, "bufreg(") {
+			fam = "E_u8" // the region of a byte buffer: only the byte heap has anything there
+		} else if r.K == KSlice && r.T != nil {
+			if sl, ok := r.T.Underlying().(*types.Slice); ok {
+				fam = "E_" + typeKey(sl.Elem())
+			}
+		}
+		ms.Regions = append(ms.Regions, modRegion{rid, "(- 4611686018427387904)", "4611686018427387904", fam})
 		return
 	}
 	if strings.HasPrefix(item, "output(") && strings.HasSuffix(item, ")") {
